@@ -58,7 +58,19 @@ impl AList {
     pub fn len(&self) -> usize {
         self.fixed.len() + self.sp.n() as usize
     }
+    /// Indices beyond `len()` denote ordered pairs of alphabet events (the first
+    /// is applied to A unjudged, the second is the judged A-event).
+    pub fn total(&self) -> usize {
+        self.len() + self.fixed.len() * self.fixed.len()
+    }
+    pub fn pair(&self, i: usize) -> Option<(usize, usize)> {
+        let nf = self.fixed.len();
+        (i >= self.len() && i < self.total()).then(|| ((i - self.len()) / nf, (i - self.len()) % nf))
+    }
     pub fn get(&self, i: usize) -> Event {
+        if let Some((_, y)) = self.pair(i) {
+            return self.fixed[y].clone();
+        }
         if i < self.fixed.len() {
             self.fixed[i].clone()
         } else {
@@ -297,7 +309,7 @@ pub fn child(prop: &str, lo: usize, hi: usize) -> i32 {
     use std::rc::Rc;
     crate::trap::install();
     let evs = Rc::new(AList::new());
-    let hi = hi.min(evs.len());
+    let hi = hi.min(evs.total());
     let nfixed = evs.fixed.len();
     let mut bj = BJudge::new(prop);
     // baseline: the same judgements with no other context doing anything
@@ -321,13 +333,18 @@ pub fn child(prop: &str, lo: usize, hi: usize) -> i32 {
     for i in lo..hi {
         cur.set(i);
         let ev = evs.get(i);
+        if let Some((x, _)) = evs.pair(i) {
+            let first = evs.fixed[x].clone();
+            let _ = subject::apply(&mut a.borrow_mut(), &first);
+            applied.set(applied.get() + 1);
+        }
         if prop == "C19" {
             // no context is involved in a conversion: A simply goes first
             let _ = subject::apply(&mut a.borrow_mut(), &ev);
             applied.set(applied.get() + 1);
         }
         visited += 1;
-        let level = if i < nfixed || (i + 1) % 256 == 0 || i + 1 == hi { Level::Full } else { Level::Small };
+        let level = if i < nfixed || (i + 1) % 256 == 0 || (i + 1 == hi && evs.pair(i).is_none()) { Level::Full } else { Level::Small };
         let echo = match &ev {
             Event::Process(p) | Event::Decode(p) => Some(p.clone()),
             _ => None,
@@ -410,7 +427,7 @@ pub fn phase(run: &mut Run) -> bool {
         return false;
     }
     let t0 = std::time::Instant::now();
-    let n = AList::new().len();
+    let n = AList::new().total();
     let k = run.threads.max(1).min(n);
     let seg = (n + k - 1) / k;
     let mut children = vec![];
@@ -450,7 +467,7 @@ pub fn phase(run: &mut Run) -> bool {
         }
     }
     let name = format!(
-        "ISOLATION: {} A-events (all alphabets, every basic encoder call, the t=1 core deviation space) on one context, each followed by B-cases on fresh contexts in a fresh single-threaded process ({} segments)",
+        "ISOLATION: {} A-events (all alphabets, every basic encoder call, the t=1 core deviation space, every ordered pair of alphabet events) on one context, each followed by B-cases on fresh contexts in a fresh single-threaded process ({} segments)",
         n, nchildren
     );
     run.acc.evals += visited;
